@@ -202,6 +202,10 @@ func c06StopPath() string {
 				return "poison-pill"
 			case strings.Contains(short, "c06"):
 				return "pid-shutdown"
+			case strings.HasPrefix(short, "(*actorSystem).rollbackSpawn"):
+				// a spawn rolled back after the actor was started (e.g. its parent was stopped
+				// while SpawnChild was in flight): the stop comes from the spawning goroutine
+				return "spawn-rollback"
 			case strings.HasPrefix(short, "(*actorSystem)."):
 				return "system-stop"
 			default:
